@@ -7,6 +7,7 @@ import (
 	"go/token"
 	"go/types"
 	"regexp"
+	"strings"
 
 	"golang.org/x/tools/go/ssa"
 )
@@ -35,29 +36,44 @@ func recogniserOf(p *Program, f *ssa.Function) timeRecogniser {
 			if !ok || (side != "LHS" && side != "RHS") {
 				continue
 			}
-			// a comparison with "time" in a block dominated by this one
-			for _, b2 := range f.Blocks {
-				if !b.Dominates(b2) {
+			folded, exact := timeNameTests(f, ta)
+			if folded {
+				r.sides[side], r.folded[side] = true, true
+			}
+			if exact {
+				r.sides[side], r.exact[side] = true, true
+			}
+		}
+	}
+	// the test delegated to a one-operand helper: isTime(x.LHS)
+	for _, b := range f.Blocks {
+		for _, in := range b.Instrs {
+			call, ok := in.(*ssa.Call)
+			if !ok {
+				continue
+			}
+			callee := call.Call.StaticCallee()
+			if callee == nil || callee.Pkg != f.Pkg || len(callee.Blocks) == 0 {
+				continue
+			}
+			for ai, a := range call.Call.Args {
+				_, side, ok := fieldRef(a)
+				if !ok || (side != "LHS" && side != "RHS") || ai >= len(callee.Params) {
 					continue
 				}
-				for _, in2 := range b2.Instrs {
-					bo, ok := in2.(*ssa.BinOp)
-					if !ok || bo.Op != token.EQL {
-						continue
-					}
-					k, ok := bo.Y.(*ssa.Const)
-					if !ok || k.Value == nil || k.Value.Kind() != constant.String || constant.StringVal(k.Value) != "time" {
-						continue
-					}
-					// operand must derive from this assertion's result
-					if call, ok := bo.X.(*ssa.Call); ok {
-						if cal := call.Call.StaticCallee(); cal != nil && cal.Name() == "ToLower" && len(call.Call.Args) == 1 && derivesFrom(call.Call.Args[0], ta, 0) {
-							r.sides[side] = true
-							r.folded[side] = true
+				for _, cb := range callee.Blocks {
+					for _, cin := range cb.Instrs {
+						ta, ok := cin.(*ssa.TypeAssert)
+						if !ok || p.TypeStr(ta.AssertedType) != "*VarRef" || ta.X != ssa.Value(callee.Params[ai]) {
+							continue
 						}
-					} else if derivesFrom(bo.X, ta, 0) {
-						r.sides[side] = true
-						r.exact[side] = true
+						folded, exact := timeNameTests(callee, ta)
+						if folded {
+							r.sides[side], r.folded[side] = true, true
+						}
+						if exact {
+							r.sides[side], r.exact[side] = true, true
+						}
 					}
 				}
 			}
@@ -83,6 +99,36 @@ func recogniserOf(p *Program, f *ssa.Function) timeRecogniser {
 		}
 	}
 	return r
+}
+
+// timeNameTests: is the name of the asserted *VarRef compared with "time" in
+// a block the assertion dominates, case-folded or exactly?
+func timeNameTests(f *ssa.Function, ta *ssa.TypeAssert) (folded, exact bool) {
+	b := ta.Block()
+	for _, b2 := range f.Blocks {
+		if !b.Dominates(b2) {
+			continue
+		}
+		for _, in2 := range b2.Instrs {
+			bo, ok := in2.(*ssa.BinOp)
+			if !ok || bo.Op != token.EQL {
+				continue
+			}
+			k, ok := bo.Y.(*ssa.Const)
+			if !ok || k.Value == nil || k.Value.Kind() != constant.String || constant.StringVal(k.Value) != "time" {
+				continue
+			}
+			// operand must derive from this assertion's result
+			if call, ok := bo.X.(*ssa.Call); ok {
+				if cal := call.Call.StaticCallee(); cal != nil && cal.Name() == "ToLower" && len(call.Call.Args) == 1 && derivesFrom(call.Call.Args[0], ta, 0) {
+					folded = true
+				}
+			} else if derivesFrom(bo.X, ta, 0) {
+				exact = true
+			}
+		}
+	}
+	return
 }
 
 func derivesFrom(v ssa.Value, src ssa.Value, depth int) bool {
@@ -132,6 +178,8 @@ func rulesC18(c *Ctx) {
 			}
 			key := "rewriteWithoutTimeDimensions: time as " + side
 			switch {
+			case len(st.sides) == 0:
+				c.Unk("C18.recognisers", key, stripLit.Pos(), "no comparison of an operand's name with \"time\" was recognised in the stripper (directly or through a one-operand helper)")
 			case !st.sides[side]:
 				c.Bad("C18.recognisers", key, stripLit.Pos(), "ConditionExpr treats time as "+side+" as a bound, the stripper does not look at that side: such a bound survives every SetTimeRange")
 			case split.folded[side] && !st.folded[side]:
@@ -155,9 +203,7 @@ func rulesC18(c *Ctx) {
 			}
 		}
 	}
-	windowRe := regexp.MustCompile(`(?i)^\s*time\s*>=\s*'%s'\s+AND\s+time\s*<\s*'%s'\s*$`)
-	joinRe := regexp.MustCompile(`(?i)^\s*\(%s\)\s+AND\s+%s\s*$`)
-	nFormat, sawWindow, sawJoin := 0, false, false
+	nFormat := 0
 	for _, b := range set.Blocks {
 		for _, in := range b.Instrs {
 			call, ok := in.(*ssa.Call)
@@ -165,56 +211,108 @@ func rulesC18(c *Ctx) {
 				continue
 			}
 			callee := call.Call.StaticCallee()
-			if callee == nil {
+			if callee == nil || callee.String() != "(time.Time).Format" {
 				continue
 			}
-			switch callee.String() {
-			case "(time.Time).Format":
-				nFormat++
-				key := fmt.Sprintf("SetTimeRange: Format #%d", nFormat)
-				k, isC := call.Call.Args[1].(*ssa.Const)
-				layout := ""
-				if isC && k.Value != nil {
-					layout = constant.StringVal(k.Value)
+			nFormat++
+			key := fmt.Sprintf("SetTimeRange: Format #%d", nFormat)
+			k, isC := call.Call.Args[1].(*ssa.Const)
+			layout := ""
+			if isC && k.Value != nil {
+				layout = constant.StringVal(k.Value)
+			}
+			utc := false
+			if rc, ok := call.Call.Args[0].(*ssa.Call); ok {
+				if cal := rc.Call.StaticCallee(); cal != nil && cal.String() == "(time.Time).UTC" {
+					utc = true
 				}
-				utc := false
-				if rc, ok := call.Call.Args[0].(*ssa.Call); ok {
-					if cal := rc.Call.StaticCallee(); cal != nil && cal.String() == "(time.Time).UTC" {
-						utc = true
-					}
-				}
-				switch {
-				case layout != rfc:
-					c.Bad("C18.window", key, call.Pos(), fmt.Sprintf("layout %q is not RFC3339Nano: sub-second window edges are truncated", layout))
-				case !utc:
-					c.Bad("C18.window", key, call.Pos(), "instant is not converted to UTC before formatting")
-				default:
-					c.OK("C18.window", key, call.Pos(), "UTC, RFC3339Nano")
-				}
-			case "fmt.Sprintf":
-				k, isC := call.Call.Args[0].(*ssa.Const)
-				if !isC || k.Value == nil {
-					continue
-				}
-				fs := constant.StringVal(k.Value)
-				args := varargsOf(call)
-				switch {
-				case windowRe.MatchString(fs):
-					sawWindow = true
-					okOrder := len(args) == 2 && reachesParam(args[0], set.Params[1], 0) && reachesParam(args[1], set.Params[2], 0)
-					c.Check(okOrder, "C18.window", "SetTimeRange: window predicate", call.Pos(), "start must fill the >= bound and end the < bound")
-				case joinRe.MatchString(fs):
-					sawJoin = true
-					okJoin := len(args) == 2 && reachesCallTo(args[0], strip, 0)
-					c.Check(okJoin, "C18.window", "SetTimeRange: join with previous condition", call.Pos(), "the stripped previous condition must be the parenthesised left operand of AND")
-				default:
-					c.Bad("C18.window", "SetTimeRange: format "+fs, call.Pos(), "a condition text that is neither the window predicate nor `(<previous>) AND <window>`: an unparenthesised previous condition lets OR capture the window")
+			}
+			switch {
+			case layout != rfc:
+				c.Bad("C18.window", key, call.Pos(), fmt.Sprintf("layout %q is not RFC3339Nano: sub-second window edges are truncated", layout))
+			case !utc:
+				c.Bad("C18.window", key, call.Pos(), "instant is not converted to UTC before formatting")
+			default:
+				c.OK("C18.window", key, call.Pos(), "UTC, RFC3339Nano")
+			}
+		}
+	}
+	// the text handed to the parser, as the set of templates it can take:
+	// constants, concatenation and Sprintf are expanded; <start>/<end> stand
+	// for the formatted instants, <prev> for the stripped previous condition
+	var reader *ssa.Call
+	for _, b := range set.Blocks {
+		for _, in := range b.Instrs {
+			if call, ok := in.(*ssa.Call); ok {
+				if cal := call.Call.StaticCallee(); cal != nil && cal.String() == "strings.NewReader" && reader == nil {
+					reader = call
 				}
 			}
 		}
 	}
-	c.Check(sawWindow, "C18.window", "SetTimeRange: window predicate present", set.Pos(), "no `time >= '%s' AND time < '%s'` text is built")
-	c.Check(sawJoin, "C18.window", "SetTimeRange: join present", set.Pos(), "the previous condition is not joined as `(<previous>) AND <window>`")
+	windowRe := regexp.MustCompile(`(?i)^\s*time\s*>=\s*'<start>'\s+AND\s+time\s*<\s*'<end>'\s*$`)
+	joinRe := regexp.MustCompile(`(?i)^\s*\(<prev>\)\s+AND\s+\(?\s*time\s*>=\s*'<start>'\s+AND\s+time\s*<\s*'<end>'\s*\)?\s*$`)
+	if reader == nil {
+		c.Unk("C18.window", "SetTimeRange: condition text", set.Pos(), "no strings.NewReader(<text>) found")
+	} else {
+		leaf := func(v ssa.Value) (string, bool) {
+			if call, ok := v.(*ssa.Call); ok {
+				if cal := call.Call.StaticCallee(); cal != nil {
+					if cal == strip {
+						return "<prev>", true
+					}
+					if cal.String() == "(time.Time).Format" {
+						switch {
+						case reachesParam(call.Call.Args[0], set.Params[1], 0):
+							return "<start>", true
+						case reachesParam(call.Call.Args[0], set.Params[2], 0):
+							return "<end>", true
+						}
+						return "<?>", true
+					}
+				}
+			}
+			return "", false
+		}
+		alts := stringTemplates(reader.Call.Args[0], leaf, 0)
+		sawWindow, sawJoin, callsStrip := false, false, false
+		for _, b := range set.Blocks {
+			for _, in := range b.Instrs {
+				if call, ok := in.(*ssa.Call); ok && call.Call.StaticCallee() == strip {
+					callsStrip = true
+				}
+			}
+		}
+		for _, a := range alts {
+			key := "SetTimeRange: condition text " + a
+			switch {
+			case strings.Contains(a, "<?>"):
+				c.Unk("C18.window", key, reader.Pos(), "part of the text is built in a way this rule does not expand")
+			case windowRe.MatchString(a):
+				sawWindow = true
+				c.OK("C18.window", key, reader.Pos(), "the window alone: start fills the >= bound, end the < bound")
+			case joinRe.MatchString(a):
+				sawJoin = true
+				c.OK("C18.window", key, reader.Pos(), "the stripped previous condition, parenthesised, AND the window")
+			default:
+				c.Bad("C18.window", key, reader.Pos(), "neither `time >= '<start>' AND time < '<end>'` nor `(<prev>) AND <window>`: swapped or wrong bounds, or an unparenthesised previous condition that lets OR capture the window")
+			}
+		}
+		if len(alts) == 0 {
+			c.Unk("C18.window", "SetTimeRange: condition text", reader.Pos(), "no template extracted")
+		} else {
+			undec := false
+			for _, a := range alts {
+				if strings.Contains(a, "<?>") {
+					undec = true
+				}
+			}
+			if !undec {
+				c.Check(sawWindow || sawJoin, "C18.window", "SetTimeRange: window predicate present", set.Pos(), "no `time >= '<start>' AND time < '<end>'` text is built")
+				c.Check(sawJoin && callsStrip, "C18.window", "SetTimeRange: join present", set.Pos(), "the previous condition is not joined as `(<previous>) AND <window>`: it is lost or its old bounds stay")
+			}
+		}
+	}
 	c.Check(nFormat == 2, "C18.window", "SetTimeRange: two formatted instants", set.Pos(), fmt.Sprintf("%d Format calls", nFormat))
 	// the result is stored into s.Condition through Reduce
 	stored := false
@@ -361,4 +459,92 @@ func callstripC18(c *Ctx, lit *ssa.Function) {
 		}
 		return false
 	})
+}
+
+// stringTemplates expands a string value into the finite set of texts it can
+// take: constants, `+`, phi alternatives and fmt.Sprintf with a constant
+// format and %s/%v verbs; leaf names the values the caller knows; anything
+// else becomes <?>.
+func stringTemplates(v ssa.Value, leaf func(ssa.Value) (string, bool), depth int) []string {
+	if depth > 12 {
+		return []string{"<?>"}
+	}
+	if s, ok := leaf(v); ok {
+		return []string{s}
+	}
+	cross := func(a, b []string) []string {
+		var out []string
+		for _, x := range a {
+			for _, y := range b {
+				if len(out) < 32 {
+					out = append(out, x+y)
+				}
+			}
+		}
+		return out
+	}
+	switch x := v.(type) {
+	case *ssa.Const:
+		if x.Value != nil && x.Value.Kind() == constant.String {
+			return []string{constant.StringVal(x.Value)}
+		}
+	case *ssa.BinOp:
+		if x.Op == token.ADD {
+			return cross(stringTemplates(x.X, leaf, depth+1), stringTemplates(x.Y, leaf, depth+1))
+		}
+	case *ssa.Phi:
+		seen := map[string]bool{}
+		var out []string
+		for _, e := range x.Edges {
+			if e == ssa.Value(x) {
+				continue
+			}
+			for _, s := range stringTemplates(e, leaf, depth+1) {
+				if !seen[s] {
+					seen[s] = true
+					out = append(out, s)
+				}
+			}
+		}
+		return out
+	case *ssa.MakeInterface:
+		return stringTemplates(x.X, leaf, depth+1)
+	case *ssa.ChangeType:
+		return stringTemplates(x.X, leaf, depth+1)
+	case *ssa.Call:
+		cal := x.Call.StaticCallee()
+		if cal != nil && cal.String() == "fmt.Sprintf" {
+			k, ok := x.Call.Args[0].(*ssa.Const)
+			if !ok || k.Value == nil {
+				return []string{"<?>"}
+			}
+			args := varargsOf(x)
+			out := []string{""}
+			fs := constant.StringVal(k.Value)
+			ai := 0
+			for i := 0; i < len(fs); i++ {
+				if fs[i] != '%' || i+1 >= len(fs) {
+					out = cross(out, []string{string(fs[i])})
+					continue
+				}
+				i++
+				switch fs[i] {
+				case '%':
+					out = cross(out, []string{"%"})
+				case 's', 'v':
+					if ai < len(args) {
+						out = cross(out, stringTemplates(args[ai], leaf, depth+1))
+					} else {
+						out = cross(out, []string{"<?>"})
+					}
+					ai++
+				default:
+					out = cross(out, []string{"<?>"})
+					ai++
+				}
+			}
+			return out
+		}
+	}
+	return []string{"<?>"}
 }
